@@ -833,8 +833,96 @@ class C15(Check):
             if not accepted and o.get("untouched") != ["1"]:
                 self.violate("outputs-modified-on-reject", "a rejected call modified an output argument", {"shapes": d, "directed": directed, "assortative": assort, "init": init,
                                                                                                           "case": [c for c in cases if c.startswith(cid + " ")][0]})
+        self.cli_rejections(rng)
         self.cov["rule"] = ("shape vectors with every size at boundary-1, boundary, boundary+1 around valid centres (and random pairs of deviations) x all 8 variants; "
                             "outputs pre-filled with sentinels; oracle = the documented acceptance predicate; distinct by (variant, shape vector)")
+
+
+def _c15_cli_rejections(self, rng):
+    """invalid invocations of the binary: abnormal termination, no result file created or altered"""
+    import hashlib
+    import os
+    import shutil
+    from .props_c import render_adjacency, render_affinity, run_cli, sanitizer_report
+    work = os.path.join(self.bdir, "scratch", "cli15")
+    good_recs = [(0, 1, [1, 0]), (1, 2, [1, 1]), (2, 0, [0, 2]), (0, 2, [1, 0])]
+    adj = render_adjacency(rng, good_recs, {"blank": False})
+    cases = [
+        ("k=1", ["--k", "1", "--s", "3"], {"adjacency.dat": adj}),
+        ("no --k", ["--s", "3"], {"adjacency.dat": adj}),
+        ("r=0", ["--k", "2", "--r", "0", "--s", "3"], {"adjacency.dat": adj}),
+        ("maxit=0", ["--k", "2", "--maxit", "0", "--s", "3"], {"adjacency.dat": adj}),
+        ("y=0", ["--k", "2", "--y", "0", "--s", "3"], {"adjacency.dat": adj}),
+        ("one vertex", ["--k", "2", "--s", "3"], {"adjacency.dat": "4 4 1 1\n4 4 2 0\n"}),
+        ("missing adjacency file", ["--k", "2", "--s", "3", "--a", "nope.dat"], {"adjacency.dat": adj}),
+        ("affinity file with wrong K", ["--k", "3", "--s", "3", "--w", "w.dat"],
+         {"adjacency.dat": adj, "w.dat": render_affinity(rng, [[0.5, 0.4], [0.3, 0.2]], 2, 2)}),
+        ("affinity file with wrong L", ["--k", "2", "--s", "3", "--w", "w.dat", "--assortative"],
+         {"adjacency.dat": adj, "w.dat": render_affinity(rng, [[0.5, 0.4]], 2, 1)}),
+        ("missing affinity file", ["--k", "2", "--s", "3", "--w", "nope.dat"], {"adjacency.dat": adj}),
+        ("ragged weights", ["--k", "2", "--s", "3"], {"adjacency.dat": "0 1 1 0\n1 2 1\n2 0 0 2\n"}),
+    ]
+    mlines = []
+    for n, (what, argv, files) in enumerate(cases):
+        aff = files.get("w.dat")
+        adjname = "nope.dat" if "nope.dat" in argv and "--a" in argv else "adjacency.dat"
+        adjbytes = files.get(adjname)
+        if adjbytes is None:
+            continue
+        mlines.append(" ".join(["cr%d" % n, "clirun", str(len(argv) + 1), "Multitensor"] + argv +
+                               [C.hexbytes(adjbytes), "1" if aff is not None else "0", C.hexbytes(aff or "")]))
+    try:
+        mo = C.run_model(mlines)
+    except C.BuildError:
+        mo = {}
+    for n, (what, argv, files) in enumerate(cases):
+        for pre in (False, True):
+            wd = os.path.join(work, "c%d_%d" % (n, int(pre)))
+            allfiles = dict(files)
+            if pre:  # results of an earlier run are present and must stay as they are
+                allfiles["results/u_out.dat"] = "# earlier\n0 1 2\n"
+                allfiles["results/run_info.dat"] = "# earlier info\n"
+                os.makedirs(os.path.join(wd, "results"), exist_ok=True)
+            shutil.rmtree(wd, ignore_errors=True)
+            os.makedirs(os.path.join(wd, "results")) if pre else None
+            r = run_cli(self.bdir, argv, {k: v for k, v in allfiles.items() if "/" not in k}, wd) if not pre else None
+            if pre:
+                # run_cli wipes the directory: create the earlier results after it prepared the inputs
+                os.makedirs(wd, exist_ok=True)
+                for name, content in allfiles.items():
+                    pth = os.path.join(wd, name)
+                    os.makedirs(os.path.dirname(pth), exist_ok=True)
+                    open(pth, "w").write(content)
+                before = {f: hashlib.sha1(open(os.path.join(wd, f), "rb").read()).hexdigest() for f in ("results/u_out.dat", "results/run_info.dat")}
+                env = dict(os.environ)
+                env.update(C.SAN_ENV)
+                env["ASAN_OPTIONS"] += ":detect_leaks=0"
+                import subprocess
+                p = subprocess.run([os.path.join(self.bdir, "Multitensor")] + argv, cwd=wd, stdout=subprocess.PIPE, stderr=subprocess.PIPE, text=True, env=env)
+                rc, err = p.returncode, p.stderr
+                created = [f for f in os.listdir(os.path.join(wd, "results")) if "results/" + f not in before]
+                after = {f: hashlib.sha1(open(os.path.join(wd, f), "rb").read()).hexdigest() for f in before}
+                altered = created or after != before
+            else:
+                rc, err = r.rc, r.err
+                altered = bool(r.files)
+            self.cov["evaluations"] += 1
+            self.monitor("invalid command lines")
+            self.nontrivial(("cli", what, pre))
+            replay = {"what": what, "argv": argv, "files": files, "exit_status": rc, "stderr": err[-800:]}
+            if sanitizer_report(err) and "division by zero" not in err:
+                self.violate("cli-memory-error", "invalid invocation (%s) hits a sanitizer/assertion failure" % what, replay)
+            elif rc == 0:
+                self.violate("cli-accepts-invalid", "invalid invocation (%s) terminated normally" % what, replay)
+            elif altered:
+                self.violate("cli-partial-files", "invalid invocation (%s) created or altered result files" % what, replay)
+        m = mo.get("cr%d" % n)
+        if m is not None and m.get("exit") != ["error"]:
+            self.corr_broken.append(("clirun", "cr%d" % n, "exit", "model accepts the invalid invocation (%s)" % what, " ".join(argv)))
+    shutil.rmtree(work, ignore_errors=True)
+
+
+C15.cli_rejections = _c15_cli_rejections
 
 
 # ------------------------------------------------------------------------------ C17
